@@ -153,6 +153,10 @@ let edit_of (kv : string) : edit =
         if c < 0 then raise Bad_tokens
         else if v = "~" then EDel (n_of_int c)
         else ESet (n_of_int c, VStr (n_of_int (if c = 1 || c = 10 then 111 else 115), bytes_of_hex v))
+let getters_smsg (m : smsg) : string =
+  let rs = match List.find_opt (fun f -> int_of_n f.sf_code = 5) m.s_fields with
+    | Some { sf_val = VNum (_, n); _ } -> Big_int_str.to_string n | _ -> "0" in
+  "rs" ^ rs ^ "," ^ String.concat "," (List.map (field_str m) [1; 2; 3; 4; 6; 7; 10])
 let () =
   reg "build" (fun (ty :: fl :: ser :: setters :: toks) ->
     let edits = List.map edit_of (List.filter (fun x -> x <> "") (String.split_on_char ',' setters)) in
@@ -161,7 +165,7 @@ let () =
     let le = spec_encode_message m in
     let be = spec_encode_message (swap_order m) in
     let valid = match spec_decode_message le with Some (_, t) when int_of_n t = List.length le -> "1" | _ -> "0" in
-    Printf.sprintf "bytes=%s dump=%s specvalid=%s be=%s copy=%s" (hex_of_bytes le) (dump_smsg m) valid (hex_of_bytes be)
+    Printf.sprintf "getters=%s bytes=%s dump=%s specvalid=%s be=%s copy=%s" (getters_smsg m) (hex_of_bytes le) (dump_smsg m) valid (hex_of_bytes be)
       (hex_of_bytes (spec_encode_message (copy_msg m))));
   reg "edit" (fun (h :: ops) ->
     match spec_decode_message (bytes_of_hex h) with
@@ -170,4 +174,4 @@ let () =
         if ops = [] then hex_of_bytes (spec_encode_message m)
         else
           let cur = ref m in
-          String.concat "|" (List.map (fun op -> cur := apply_edit !cur (edit_of op); hex_of_bytes (spec_encode_message !cur)) ops))
+          String.concat "|" (List.map (fun op -> cur := apply_edit !cur (edit_of op); getters_smsg !cur ^ "@" ^ hex_of_bytes (spec_encode_message !cur)) ops))
